@@ -4,6 +4,11 @@
 #include "common.h"
 #include "algops.h"
 #include "csops.h"
+#ifdef VERIF_WITH_LUA
+#include "luamodel/luamodel.h"
+#include <fstream>
+#include <unistd.h>
+#endif
 
 struct State {
   std::unique_ptr<Model> m;
@@ -14,6 +19,7 @@ struct State {
   std::string caseId = "none";
   unsigned int callNo = 0;
   CSState C;
+  std::map<std::string, std::string> luafiles;
   void fresh(const std::string &id) {
     C.fresh();
     m.reset(new Model());
@@ -290,6 +296,8 @@ int main() {
     if (t.l.empty()) continue;
     std::string cmd = t.next();
     if (cmd[0] == '#') continue;
+    if (cmd == "@model") continue;          // executed by the Lean driver only
+    if (cmd == "@impl") cmd = t.next();     // executed by this driver only
     try {
       if (cmd == "case") { s.fresh(t.next()); }
       else if (cmd == "gravity") { s.m->gravity = t.v3(); }
@@ -379,6 +387,51 @@ int main() {
           s.has_fext = true;
         }
       }
+#ifdef VERIF_WITH_LUA
+      else if (cmd == "luafile") {
+        // luafile <name> ... luaend : the text of a Lua model, written to a private temporary file
+        std::string nm = t.next();
+        std::string path = "/tmp/verif_lua_" + std::to_string((long) getpid()) + "_" + nm + ".lua";
+        std::ofstream f(path);
+        std::string l2;
+        while (std::getline(std::cin, l2)) { if (l2 == "luaend") break; f << l2 << "\n"; }
+        f.close();
+        s.luafiles[nm] = path;
+      }
+      else if (cmd == "luaload") {
+        // luaload <name> [<constraint set name>]: replaces the current model (and constraint set)
+        std::string nm = t.next();
+        std::string csname = t.pos < t.l.size() ? t.next() : "";
+        s.m.reset(new Model());
+        s.customs.clear();
+        s.C.fresh();
+        try {
+          if (csname.empty()) {
+            Addons::LuaModelReadFromFile(s.luafiles[nm].c_str(), s.m.get(), false);
+          } else {
+            std::vector<std::string> names; names.push_back(csname);
+            std::vector<ConstraintSet> sets(1);
+            Addons::LuaModelReadFromFileWithConstraints(s.luafiles[nm].c_str(), s.m.get(), sets, names, false);
+            s.C.cs.reset(new ConstraintSet(sets[0]));
+          }
+        } catch (Errors::RBDLError &e) {
+          std::cout << "# luaload error: " << e.what() << "\n";
+        }
+      }
+      else if (cmd == "luarm") { for (auto &p : s.luafiles) unlink(p.second.c_str()); s.luafiles.clear(); }
+      else if (cmd == "csdump") {
+        // structure of the current constraint set: type, bodies, rows per constraint
+        std::ostringstream o;
+        ConstraintSet &cs = *s.C.cs;
+        o << "size " << cs.size();
+        for (size_t i = 0; i < cs.constraints.size(); i++) {
+          Constraint &c = *cs.constraints[i];
+          o << " | t " << c.getConstraintType() << " n " << c.getConstraintSize() << " row " << c.getConstraintIndex()
+            << " b " << c.getBodyIds()[0] << " " << c.getBodyIds()[1];
+        }
+        emit(s, cmd, o.str());
+      }
+#endif
       else if (cmd.rfind("cs_", 0) == 0) {
         std::string out;
         if (!csCommand(cmd, t, *s.m, s.C, out)) emit(s, cmd, "bad-op");
